@@ -626,6 +626,29 @@ Theorem typed_member_is_verified_member_partial :
 Proof. exact parsed_is_lookup. Qed.
 Print Assumptions typed_member_is_verified_member_partial.
 
+(* the guard of the partial theorem is EXACT on the class the harness generates (a member appended after the signed
+   ones): whenever a later member folds to the same field name, is another name and carries another value, the typed
+   object really holds the injected value and not the one the proof check saw *)
+Theorem typed_member_guard_exact :
+  forall k ms v k' v',
+    lookup ms k = Some v -> fold k' = fold k -> k' <> k -> v' <> v ->
+    parsed_field k (ms ++ [(k', v')]) = Some v' /\ lookup (ms ++ [(k', v')]) k = Some v /\
+    parsed_field k (ms ++ [(k', v')]) <> lookup (ms ++ [(k', v')]) k.
+Proof. exact parsed_guard_exact. Qed.
+Print Assumptions typed_member_guard_exact.
+
+(* jwt_issue_then_parse needs its date guard: a date with a fraction of a second comes back as its whole second (nbf / iat
+   are whole seconds and override the claim object's date also in the full form; C16's finding jwt:subsecond-date-truncated) *)
+Definition jy_cred : obj :=
+  [("@context", JStr "ctx"); ("id", JStr "urn:1"); ("issuanceDate", JStr "D1.5"); ("issuer", JStr "did:i")].
+Definition jy_secs (d : string) : option Z := if String.eqb d "D1.5" then Some 100%Z else None.
+Definition jy_fmt (z : Z) : string := if Z.eqb z 100 then "D1" else "D?".
+Theorem jwt_issue_then_parse_subsecond_refuted :
+  exists p c, jwt_claims jy_secs false "" jy_cred = Some p /\ decode_cred_jwt jy_fmt p = Some c /\
+              lookup c "issuanceDate" = Some (JStr "D1") /\ lookup jy_cred "issuanceDate" = Some (JStr "D1.5").
+Proof. eexists. eexists. split; [vm_compute; reflexivity|]. split; [vm_compute; reflexivity|]. split; vm_compute; reflexivity. Qed.
+Print Assumptions jwt_issue_then_parse_subsecond_refuted.
+
 (* ---- non-vacuity: a concrete instance of every parameter (the canonicaliser is a finite injective table) in which
         a signed document verifies, and the edited one (a claim changed) does not ---- *)
 Definition ex_doc : obj := [("@context", JStr "ctx"); ("claim", JStr "v"); ("id", JStr "urn:1")].
